@@ -82,6 +82,17 @@ class PDiff:
     def __repr__(s): return f'PDiff(end{s.e:+d} - cur{s.j:+d})'
 
 
+class LenVal:
+    """(end + e) - start : the length of the scanned range, cached in a local (for (i = 0; i < len; i++) ...)"""
+    __slots__ = ('e',)
+    def __init__(s, e): s.e = e
+    def __repr__(s): return f'LenVal(end{s.e:+d} - start)'
+    def __add__(s, k): return LenVal(s.e + int(k))
+    def __sub__(s, k): return LenVal(s.e - int(k))
+    def __eq__(s, o): return isinstance(o, LenVal) and o.e == s.e
+    def __hash__(s): return hash(('LenVal', s.e))
+
+
 class Idx(tuple):
     """byte index produced by the decoder: (is_zero, symbol_at_that_index, is_current_position)"""
 
@@ -326,10 +337,23 @@ class Interp:
                     if pk == 'ImplicitCastExpr': return 'value'
                     return 'ref'
                 res = [visit(c, n) for c in n.get('inner', []) or []]
+                if 'incr' in res:
+                    # the value of ++x / x++ itself: used in a comparison it is one more use of the counter; as a statement
+                    # its value is dropped
+                    if k in ('ImplicitCastExpr', 'ParenExpr'): return 'incr'
+                    if k == 'BinaryOperator' and n.get('opcode') in ('==', '!=', '<', '<=', '>', '>='):
+                        other = n['inner'][1] if res[0] == 'incr' else n['inner'][0]
+                        try: consts.append(int(self._const(other)))
+                        except Exception: ok = False
+                        return None
+                    if k in ('CompoundStmt', 'CaseStmt', 'DefaultStmt', 'LabelStmt', 'DoStmt'): return None
+                    if k in ('IfStmt', 'WhileStmt', 'ForStmt'): consts.append(0); return None
+                    if k == 'BinaryOperator' and n.get('opcode') in ('&&', '||', ','): consts.append(0); return None
+                    ok = False; return None
                 if 'value' in res or 'ref' in res:
                     if k == 'ImplicitCastExpr': return 'value' if 'ref' in res or 'value' in res else None
                     if k == 'ParenExpr': return 'value' if 'value' in res else 'ref'
-                    if k == 'UnaryOperator' and n.get('opcode') in ('++',): return None
+                    if k == 'UnaryOperator' and n.get('opcode') in ('++',): return 'incr'
                     if k == 'UnaryOperator' and n.get('opcode') == '!': consts.append(0); return None
                     if k == 'BinaryOperator' and n.get('opcode') == '=' and res[0] == 'ref':
                         rhs = strip(n['inner'][1])
@@ -454,7 +478,7 @@ class Interp:
                 if self.frame == 0 and name in self.dead_vars: return 0          # value never read anywhere in the function
                 v = self.env.get(name, Ptr('end', 0)) if name == '#end' else self.env[name]
                 d = 1 if op == '++' else -1
-                new = Ptr(v.base, v.off + d) if isinstance(v, Ptr) else v + d
+                new = Ptr(v.base, v.off + d) if isinstance(v, Ptr) else (LenVal(v.e + d) if isinstance(v, LenVal) else v + d)
                 self.store(name, new)
                 return v if n.get('isPostfix') else self.env[name]
             if op == '&':
@@ -478,6 +502,8 @@ class Interp:
             if isinstance(base, Ptr) and base.base == 'cur' and isinstance(idx, int) and not isinstance(idx, Byte):
                 return self.byte_at(base.off + idx)
             if isinstance(base, Ptr) and base.base == 'end' and isinstance(idx, int): return self.byte_at_end(base.off + idx)
+            if isinstance(base, Ptr) and base.base == 'start' and isinstance(idx, Ptr) and idx.base == 'cur' and getattr(self, 'index_cursor', False):
+                return self.byte_at(base.off + idx.off)                       # start[i], start[i + 1]
             if isinstance(base, Ptr) and base.base == 'start' and base.off == 0:
                 if isinstance(idx, Idx): return Byte(idx[1]) if not is_na(idx[1]) else Byte(0xC3)
                 if isinstance(idx, int) and idx == 0: return self.first_byte()
@@ -526,6 +552,24 @@ class Interp:
     def binop(self, op, a, b):
         cmpops = ('==', '!=', '<', '<=', '>', '>=')
         if isinstance(a, Idx) or isinstance(b, Idx): return self.idx_op(op, a, b)
+        if isinstance(a, LenVal) or isinstance(b, LenVal):
+            L, o, swapped = (a, b, False) if isinstance(a, LenVal) else (b, a, True)
+            if isinstance(o, LenVal) and op in cmpops: return int({'==': a.e == b.e, '!=': a.e != b.e, '<': a.e < b.e, '<=': a.e <= b.e, '>': a.e > b.e, '>=': a.e >= b.e}[op])
+            if isinstance(o, int) and not isinstance(o, (Byte, bool)) and op in ('+', '-') and not (swapped and op == '-'): return LenVal(L.e + (o if op == '+' else -o))
+            if op in cmpops:
+                # len op X  <=>  end + e  op  start + X   (X a constant, or the index cursor = a position cur + k)
+                if isinstance(o, Ptr) and o.base == 'cur': other = o
+                elif isinstance(o, int) and not isinstance(o, (Byte, bool)): other = Ptr('start', int(o))
+                else: raise Unsupported('length compared with ' + repr(o))
+                return self.cmp_ptr(op, other, Ptr('end', L.e)) if swapped else self.cmp_ptr(op, Ptr('end', L.e), other)
+            raise Unsupported('arithmetic on the range length: ' + op)
+        if getattr(self, 'index_cursor', False):
+            # the cursor is an integer index i (start[i]): it is carried as the position cur + k
+            for x, y, sw in ((a, b, False), (b, a, True)):
+                if isinstance(x, Ptr) and x.base == 'cur' and isinstance(y, int) and not isinstance(y, (Byte, bool)) and op in cmpops:
+                    return self.cmp_ptr(op, Ptr('start', int(y)), x) if sw else self.cmp_ptr(op, x, Ptr('start', int(y)))
+            if op == '+' and isinstance(a, Ptr) and isinstance(b, Ptr) and {a.base, b.base} == {'start', 'cur'}:
+                return Ptr('cur', a.off + b.off)                               # start + i
         if isinstance(a, PDiff) or isinstance(b, PDiff):
             # (end + e) - (cur + j)  compared with a constant K:  the same question as  end + e  op  cur + j + K
             if isinstance(a, PDiff) and isinstance(b, int) and not isinstance(b, (Byte, PDiff)):
@@ -584,7 +628,7 @@ class Interp:
 
     def ptr_diff(self, a, b):
         if a.base == 'end' and b.base == 'cur': return PDiff(a.off, b.off)
-        if a.base == 'end' and b.base == 'start' and self.at_start() and getattr(self, 'consumed', 0) == 0: return PDiff(a.off, b.off)
+        if a.base == 'end' and b.base == 'start': return LenVal(a.off - b.off)
         raise Unsupported('pointer difference')
 
     def idx_op(self, op, a, b):
@@ -774,9 +818,42 @@ class ScannerMachine(Interp):
     def __init__(self, tu, fname, term=0, counters=None, name=None, prologue='run'):
         super().__init__(tu, fname, term, counters)
         self.name = name or fname; self.prologue = prologue
+        self._find_cursor()
+
+    def _find_cursor(self):
+        """the loop's cursor, by role: a pointer local that is given `start`, or - failing that - an integer local that
+        subscripts `start` and is stepped by the loop (an index cursor).  Names do not matter."""
+        if type(self).cursor != 'cp': return                    # the subclass reads its input differently (decoder)
+        ptrs = []; idxs = []
+        for n in walk(self.fn):
+            k = n.get('kind')
+            if k == 'VarDecl' and '*' in n.get('type', {}).get('qualType', ''):
+                ini = [c for c in n.get('inner', []) if 'Comment' not in c.get('kind', '')]
+                if ini and strip(ini[0]).get('kind') == 'DeclRefExpr' and strip(ini[0])['referencedDecl'].get('name') == self.p_start: ptrs.append(n['name'])
+            if k == 'BinaryOperator' and n.get('opcode') == '=' and strip(n['inner'][0]).get('kind') == 'DeclRefExpr' and strip(n['inner'][1]).get('kind') == 'DeclRefExpr' \
+               and strip(n['inner'][1])['referencedDecl'].get('name') == self.p_start and strip(n['inner'][0])['referencedDecl'].get('kind') == 'VarDecl':
+                ptrs.append(strip(n['inner'][0])['referencedDecl']['name'])
+            if k == 'ArraySubscriptExpr':
+                b = strip(n['inner'][0]); i = strip(n['inner'][1])
+                if b.get('kind') == 'DeclRefExpr' and b['referencedDecl'].get('name') == self.p_start and b['referencedDecl'].get('kind') == 'ParmVarDecl':
+                    for m in walk(i):
+                        if m.get('kind') == 'DeclRefExpr' and m['referencedDecl'].get('kind') == 'VarDecl' and '*' not in m['referencedDecl'].get('type', {}).get('qualType', '*'): idxs.append(m['referencedDecl']['name'])
+        stepped = set()
+        for n in walk(self.loop):
+            if n.get('kind') == 'UnaryOperator' and n.get('opcode') in ('++',) and strip(n['inner'][0]).get('kind') == 'DeclRefExpr': stepped.add(strip(n['inner'][0])['referencedDecl']['name'])
+            if n.get('kind') == 'CompoundAssignOperator' and n.get('opcode') == '+=' and strip(n['inner'][0]).get('kind') == 'DeclRefExpr': stepped.add(strip(n['inner'][0])['referencedDecl']['name'])
+        p = [x for x in dict.fromkeys(ptrs) if x in stepped]
+        if p: self.cursor = p[0]; return
+        ix = [x for x in dict.fromkeys(idxs) if x in stepped and x not in self.sat]
+        if ix and not ptrs: self.cursor = ix[0]; self.index_cursor = True
+
+    index_cursor = False
+    _adv = 0
 
     def key(self):
         out = []
+        rebase = getattr(self, '_adv', 0)
+        if not isinstance(rebase, int): rebase = 0
         for k, v in sorted(self.env.items()):
             if k in self.dead_vars or v is None: continue
             if isinstance(v, (Byte, BSet)):
@@ -785,9 +862,12 @@ class ScannerMachine(Interp):
                 out.append((k, ('byte', int(v)))); continue
             if isinstance(v, Idx): out.append((k, ('idx', v[0], v[1]))); continue
             if isinstance(v, Ptr):
-                if k == 'cp' or k == self.cursor: continue
-                out.append((k, ('ptr', v.base, v.off))); continue
+                if k == self.cursor: continue
+                # a saved position is relative to the cursor of the step that made it: re-base it on the new cursor
+                out.append((k, ('ptr', v.base, v.off - (rebase if v.base == 'cur' else 0)))); continue
             if isinstance(v, tuple): out.append((k, v)); continue
+            if isinstance(v, PDiff): out.append((k, ('pdiff', v.e, v.j - rebase))); continue
+            if isinstance(v, LenVal): out.append((k, ('lenval', v.e))); continue
             out.append((k, v))
         return tuple(out)
 
@@ -799,6 +879,8 @@ class ScannerMachine(Interp):
             if isinstance(v, tuple) and v and v[0] == 'byte': self.env[k] = Byte(v[1])
             elif isinstance(v, tuple) and v and v[0] == 'idx': self.env[k] = Idx((v[1], v[2], False))
             elif isinstance(v, tuple) and v and v[0] == 'ptr': self.env[k] = Ptr(v[1], v[2])
+            elif isinstance(v, tuple) and v and v[0] == 'pdiff': self.env[k] = PDiff(v[1], v[2])
+            elif isinstance(v, tuple) and v and v[0] == 'lenval': self.env[k] = LenVal(v[1])
             else: self.env[k] = v
         self.env[self.cursor] = Ptr('cur', 0)
 
@@ -814,6 +896,7 @@ class ScannerMachine(Interp):
             return ('ret', self._rc(r.v), r.node)
         cp = self.env.get(self.cursor)
         if isinstance(cp, Ptr) and cp.base == 'start' and cp.off == 0: self.env[self.cursor] = Ptr('cur', 0)
+        elif self.index_cursor and isinstance(cp, int) and not isinstance(cp, (Byte, bool)) and cp == 0: self.env[self.cursor] = Ptr('cur', 0)
         elif self.cursor in self.env: raise Unsupported(f'cursor initialised to {cp!r}')
         return ('run', self.key(), 0)
 
@@ -847,7 +930,9 @@ class ScannerMachine(Interp):
             except Ret as r:
                 return ('ret', self._rc(r.v), r.node)
             raise Unsupported('function falls off its end')
-        return ('run', self.key(), adv)
+        self._adv = adv
+        try: return ('run', self.key(), adv)
+        finally: self._adv = 0
 
     overruns = 0
 
@@ -964,6 +1049,14 @@ class DecoderScannerMachine(ScannerMachine):
             raise Unsupported(f'index compared with {op} {b}')
         if isinstance(a, Ptr) and isinstance(b, Idx) and op == '+' and a.base == 'start':
             return Ptr(('at', b), a.off)
+        # the range length (end - start) is never negative
+        for x, y, sw in ((a, b, False), (b, a, True)):
+            if x == ('len',) and isinstance(y, int) and not isinstance(y, (Byte, bool)) and op in ('<', '<=', '>', '>=', '==', '!='):
+                o = {'<': '>', '<=': '>=', '>': '<', '>=': '<='}.get(op, op) if sw else op
+                if y < 0: return int({'<': False, '<=': False, '>': True, '>=': True, '==': False, '!=': True}[o])
+                if y == 0 and o == '<': return 0
+                if y == 0 and o == '>=': return 1
+                raise Unsupported('the range length compared with a non-negative constant')
         # (end - start) compared with index + k  is  end compared with start + index + k
         if a == ('len',) and isinstance(b, Ptr) and isinstance(b.base, tuple) and op in ('==', '!='):
             return self.binop(op, b, Ptr('end', 0))
@@ -1176,6 +1269,8 @@ def run_string(machine, syms, term=0):
 
 class LenInt(int):
     """an integer derived from the input length (end - start): only +/- constants and comparisons are allowed"""
+    def __add__(s, o): return LenInt(int(s) + int(o)) if not isinstance(o, (Ptr, Byte)) else NotImplemented
+    def __sub__(s, o): return LenInt(int(s) - int(o)) if not isinstance(o, (Ptr, Byte)) else NotImplemented
 
 
 class PrologueInterp(Interp):
@@ -1192,6 +1287,13 @@ class PrologueInterp(Interp):
             if isinstance(r.v, (Ptr, Byte)): raise Unsupported('returns a non-code value')
             return ('ret', int(r.v), r.node)
         e = self.env.get('#end', Ptr('end', 0))
+        # an indexed scan  for (i = 0; i < len; i++)  ends where its length variable says
+        c = strip(self.l_cond) if self.l_cond and self.l_cond.get('kind') else None
+        if c is not None and c.get('kind') == 'BinaryOperator' and c.get('opcode') == '<' and strip(c['inner'][1]).get('kind') == 'DeclRefExpr':
+            L = self.env.get(strip(c['inner'][1])['referencedDecl']['name'])
+            if isinstance(L, LenInt):
+                if e.off != 0: raise Unsupported('both end and a length variable are adjusted before the scan')
+                return ('scan', int(L) - self.n)
         return ('scan', e.off)
     def store(self, name, v):
         if name == '#end':
